@@ -221,3 +221,65 @@ func TestFreeRun(t *testing.T) {
 	}
 	t.Logf("free-running executions: %d", n)
 }
+
+// TestRegressions re-explores, as a plain test without the driver, the parameter tuples on
+// which the explorer found the genuine defects of DESIGN §5.1 (at the bound that exposed
+// them). It passes on the repaired tree and fails on a tree that lacks one of the repairs.
+func TestRegressions(t *testing.T) {
+	if os.Getenv("VREGRESS") == "" {
+		t.Skip("VREGRESS not set")
+	}
+	cases := []struct {
+		finding, scen, param, tags string
+		bound                      int
+	}{
+		{"F5", "fault", "fin-s2c-f0-mid-payload-b@window-a=plain-2nd=none", "C03", 0},
+		{"F5", "fault", "fin-s2c-f0-last-byte-b@early-a=plain-2nd=none", "C03", 0},
+		{"F6", "term", "respcut-fin-rc0-desc", "C08", 2},
+		{"F6", "term", "respcut-rst-rc0-desc", "C08", 2},
+		{"F4", "connend", "close-unary-later1", "C15", 0},
+		{"F4", "connend", "close-big-later0", "C15", 0},
+		{"F11", "connend", "srvctx-unary-later0-garbage", "C15", 1},
+		{"F7", "reader", "n1-pat3-len4097", "C20", 1},
+		{"F7", "reader", "n1-pat4-len0", "C20", 0},
+	}
+	for _, c := range cases {
+		sc := Registry[c.scen]
+		var prm *Param
+		for _, tier := range []string{"quick", "thorough"} {
+			for _, p := range sc.Params(tier) {
+				if p.Name == c.param && prm == nil {
+					p := p
+					prm = &p
+				}
+			}
+		}
+		if prm == nil {
+			t.Errorf("%s: tuple %s/%s no longer exists", c.finding, c.scen, c.param)
+			continue
+		}
+		os.Setenv("VTAGS", c.tags)
+		cfg := sc.Cfg
+		cfg.Desc = prm.V["desc"] == 1
+		var bad []string
+		n := 0
+		ex := &vsched.Explorer{Bound: c.bound}
+		ex.Run = func(prefix []int, fps []string) *vsched.Exec {
+			return vsched.RunOnce(t, cfg, prefix, fps, func(s *vsched.Sched) { sc.Body(s, *prm) })
+		}
+		ex.OnExec = func(x *vsched.Exec) bool {
+			n++
+			if v := execViolations(x); len(v) > 0 {
+				bad = v
+				return false
+			}
+			return true
+		}
+		ex.Explore()
+		if len(bad) > 0 {
+			t.Errorf("%s regressed: %s/%s bound %d after %d executions: %s", c.finding, c.scen, c.param, c.bound, n, firstLines(strings.Join(bad, "\n"), 4))
+		} else {
+			t.Logf("%s: %s/%s bound %d: %d executions, no violation", c.finding, c.scen, c.param, c.bound, n)
+		}
+	}
+}
